@@ -544,7 +544,7 @@ impl PmLayout {
 	}
 	pub fn all() -> Vec<PmLayout> {
 		let mut v = vec![];
-		for leaf_levels in 0..3u8 {
+		for leaf_levels in 0..4u8 {
 			for leaf_size in [1usize, 2, 3] {
 				if leaf_levels == 0 && leaf_size != 2 {
 					continue;
@@ -1023,6 +1023,11 @@ pub fn mb_encode(path: &Path, tiles: &TileMap, format: &str, layout: MbLayout) -
 	if layout.extra_metadata {
 		md.push(("generator", "vcommon".into()));
 		md.push(("scheme", "tms".into()));
+		// the json row is defined for vector tile sets only; other sets may carry any further rows, also one of this
+		// name (tools write statistics or nested metadata into it)
+		if format != "pbf" {
+			md.push(("json", "{\"tilestats\":{\"layerCount\":0}}".into()));
+		}
 		md.push(("minzoom", tiles.keys().map(|k| k.0).min().unwrap_or(0).to_string()));
 		md.push(("maxzoom", tiles.keys().map(|k| k.0).max().unwrap_or(0).to_string()));
 	}
